@@ -132,6 +132,10 @@ class GenMachine(StateMachine):
         for s, reqs in M["handler"].items():
             if reqs:
                 self.st[s].events.enter.register(self._mk_nested(reqs, log))
+        # a second observer of every event, registered AFTER the handlers that request nested transitions: each performed transition
+        # fires its events exactly once for every observer, also when the same event fires again while it is being dispatched
+        self.late_log = []
+        attach_recorders(self, self.st, self.late_log)
 
     def _mk_nested(self, reqs, log):
         def handler(_data):
